@@ -6,11 +6,12 @@ and the property oracle (confined + virtual = normalised location) evaluated on 
 outputs, independent of the model."""
 import asyncio
 import itertools
+import os
 import pathlib
 
 import aioftp
 
-from .. import core, sx
+from .. import core, ftpsim, simnet, sx
 
 ID = "C02"
 EXTRACT = "ExC02"
@@ -418,6 +419,505 @@ def stream_histories(ctx, xcheck):
     impl.close()
 
 
+
+# ---------------------------------------------------------------- ONE connection, several logins
+# A Connection object survives USER/PASS (Server.user() replaces user / logged / current_directory only).
+# Events: [0,i] login as users[i] | [1,s,ok] CWD | [2,ok] CDUP | [3,s] single-path command |
+#         [4,s] STOR/APPE | [5,s,ok] RNFR | [6,s,ok] RNTO            (ok = accepted by the decorators)
+SESS_POSIX_USERS = [("/srv/a", "/"), ("/srv/b", "/"), ("/srv/a", "/d"), ("/srv/a/d", "/"), ("rel/base", "/a/../b"), ("", "/"), ("/", "/srv/a"), ("/srv/b", "/a\\b/C:")]
+SESS_WIN_USERS = [("C:\\ftp", "/"), ("C:\\ftp\\sub", "/a"), ("ftp\\rel", "/")]
+SESS_ARGS = ["f", "/f", "d", "/d", "d/f", "../f", "..", "/", "", ".", "//f", "/d/../f", "a\\b", "C:x", "../../f", "g"]
+
+
+_REPORTED = {}
+
+
+def report(ctx, what, payload, per_key=2):
+    """at most `per_key` replays per violation key from the session streams (the rest is only counted), so that the
+    five replay files core writes show different shapes"""
+    n = _REPORTED.get(payload["key"], 0)
+    _REPORTED[payload["key"]] = n + 1
+    if n < per_key:
+        ctx.violation(what, payload)
+    else:
+        ctx.count("further_violations_" + payload["key"])
+
+
+def mk_user(flavour, base, home):
+    if flavour == "posix":
+        return aioftp.User(base_path=base, home_path=home)
+    u = aioftp.User(home_path=home)
+    u.base_path = pathlib.PureWindowsPath(base)
+    return u
+
+
+def session_oracle_cwd(cwd, step):
+    """the working directory after an accepted CWD/CDUP, by the property's own normal form"""
+    if step[0] == 1:
+        return "/" + "/".join(py_normalize(cwd, step[1]))
+    parts = py_normalize(cwd, "")
+    return "/" + "/".join(parts[:-1])
+
+
+def run_session_impl(users, first, events):
+    """drive the real Server.get_paths on ONE Connection object the way the handlers do; per event:
+    (canonical paths handed to the backend, list of problems found by the oracle on the real outputs).
+    users: [(flavour, base, home)].  An exception of the implementation is an observation, not an abort."""
+    objs = [mk_user(*u) for u in users]
+    conn = aioftp.Connection(current_directory=objs[first].home_path, user=objs[first], logged=True)
+    cur, cwd = first, users[first][2]
+    rn = None
+    per_event, problems = [], []
+
+    def resolve(k, s_arg, s_text):
+        """the three get_paths calls of a path command (PathConditions, PathPermissions, body)"""
+        flavour, base, _ = users[cur]
+        out = None
+        for call in range(3):
+            try:
+                real, virt = aioftp.Server.get_paths(conn, s_arg)
+            except Exception as e:  # noqa: BLE001 - observation
+                problems.append((k, f"session-{flavour}-raises", f"get_paths raised {type(e).__name__}: {e}"))
+                return None
+            bad = oracle(flavour, objs[cur].base_path, cwd, s_text, real, virt)
+            if bad is not None:
+                kind, detail = bad
+                key = violation_key(flavour, kind, cwd, s_text)
+                if not (flavour == "win" and key.split("-")[-1] in ("backslash", "drive")):
+                    key = f"session-{flavour}-{kind}"
+                problems.append((k, key, f"call {call + 1} of 3 as user {cur} (base {users[cur][1]!r}, cwd {cwd!r}, arg {s_text!r}): {detail}"))
+            else:
+                # independence: a fresh Connection with the same user and cwd must resolve identically
+                fresh = aioftp.Connection(current_directory=conn.current_directory, user=objs[cur])
+                try:
+                    want = aioftp.Server.get_paths(fresh, s_arg)
+                except Exception as e:  # noqa: BLE001
+                    want = ("raised", type(e).__name__)
+                if want != (real, virt):
+                    problems.append((k, "session-history-dependent", f"shared connection gives {(str(real), str(virt))}, a fresh one {tuple(map(str, want))}"))
+            if out is None:
+                out = (real, virt)
+        return out
+
+    for k, ev in enumerate(events):
+        paths = []
+        ran_as = cur  # the user logged in when the command arrived (a login command runs under the previous one)
+        if ev[0] == 0:
+            if ev[1] < len(objs):
+                # Server.user(): del user / logged, set user, current_directory = home_path
+                del conn.user
+                del conn.logged
+                conn.user = objs[ev[1]]
+                conn.current_directory = objs[ev[1]].home_path
+                conn.logged = True
+                cur, cwd = ev[1], users[ev[1]][2]
+        elif ev[0] in (1, 2):
+            arg = ev[1] if ev[0] == 1 else conn.current_directory.parent
+            text = ev[1] if ev[0] == 1 else str(arg)
+            r = resolve(k, arg, text)
+            if r is not None:
+                paths.append(r[0])
+                if ev[-1]:
+                    conn.current_directory = r[1]
+                    if users[cur][0] == "posix":
+                        cwd = session_oracle_cwd(cwd, ev)
+                        if str(r[1]) != cwd:
+                            problems.append((k, "session-posix-cwd", f"working directory became {str(r[1])!r}, normal form is {cwd!r}"))
+                    else:
+                        # Windows flavour: the is_relative_to guard may send a request with a special component to the
+                        # root (accepted by `oracle`); follow the virtual path the oracle has just validated
+                        cwd = str(r[1])
+        else:
+            r = resolve(k, ev[1], ev[1])
+            if r is not None:
+                real = r[0]
+                if ev[0] == 3:
+                    paths.append(real)
+                elif ev[0] == 4:
+                    paths += [real.parent, real]
+                elif ev[0] == 5:
+                    paths.append(real)
+                    if ev[2]:
+                        conn.rename_from = real
+                        rn = real
+                elif ev[0] == 6:
+                    if rn is None:
+                        paths = []
+                    elif ev[2]:
+                        paths += [real, conn.rename_from]
+                        del conn.rename_from
+                        rn = None
+                    else:
+                        paths.append(real)
+        per_event.append((ran_as, paths))
+    return per_event, problems, str(conn.current_directory)
+
+
+def sess_model_arg(users, first, events):
+    return [[[b, h] for _, b, h in users], first, [list(e) for e in events]]
+
+
+def check_session(ctx, users, first, events, mo, stream):
+    ctx.case((stream, tuple(users), first, repr(events)))
+    ctx.traces_impl += 1
+    per_event, problems, final_cwd = run_session_impl(users, first, events)
+    for k, key, detail in problems[:3]:
+        report(
+            ctx, f"one connection, several logins: {detail}",
+            {"key": key, "session": True, "users": [list(u) for u in users], "first": first, "events": [list(e) for e in events], "step": k},
+        )
+    if mo is None:
+        return
+    if mo[0] != 0:
+        ctx.disagree(stream, [users, first, events], mo, "model refused the case")
+        return
+    m_steps, m_cwd = mo[1]
+    mc = [[sx.txt(b[1]), [[model_ppath(p[0]), sx.txt(p[1])] for p in ps]] for b, ps in m_steps]
+    im = [[str(pathlib.PurePosixPath(users[c][1])), [[canon_posix(p), str(p)] for p in ps]] for c, ps in per_event]
+    if mc != im or sx.txt(m_cwd[1]) != final_cwd:
+        ctx.disagree(stream, [users, first, events], [mc, sx.txt(m_cwd[1])], [im, final_cwd])
+
+
+def stream_relogin(ctx, xcheck):
+    """function level: ONE Connection object reused across get_paths calls while connection.user and
+    current_directory change (USER/PASS again).  Bounded-exhaustive over a 13-event alphabet on 3 users
+    (two bases, two homes), plus random histories over POSIX and Windows users."""
+    rng = ctx.rng
+    thorough = ctx.tier == "thorough"
+    loop = asyncio.new_event_loop()  # aioftp.Connection creates futures
+    asyncio.set_event_loop(loop)
+    users3 = [("posix", "/srv/a", "/"), ("posix", "/srv/b", "/"), ("posix", "/srv/a", "/d")]
+    alphabet = [[0, 0], [0, 1], [0, 2], [3, "f"], [3, "/f"], [3, "../f"], [1, "d", True], [2, True], [5, "f", True], [6, "g", True], [4, "f"], [4, "/"], [1, "..", False]]
+    cases = []
+    depth = 4 if thorough else 3
+    for n in range(1, depth + 1):
+        for combo in itertools.product(alphabet, repeat=n):
+            cases.append((users3, 0, list(combo)))
+    ctx.count(f"relogin_exhaustive_len_le{depth}", len(cases))
+    n_random = 20000 if thorough else 2500
+    n_login = 0
+    for _ in range(n_random):
+        pool = [("posix",) + u for u in SESS_POSIX_USERS]
+        if rng.random() < 0.25:
+            pool += [("win",) + u for u in SESS_WIN_USERS]
+        users = rng.sample(pool, rng.randint(2, 4))
+        ev = []
+        last = None
+        for _ in range(rng.randint(2, 10)):
+            r = rng.random()
+            if r < 0.22:
+                ev.append([0, rng.randrange(len(users))])
+                n_login += 1
+                if last is not None and rng.random() < 0.6:
+                    ev.append(list(last))  # the same request again under the new login
+                continue
+            s = rng.choice(SESS_ARGS)
+            if r < 0.42:
+                e = [1, s, rng.random() < 0.8]
+            elif r < 0.5:
+                e = [2, rng.random() < 0.8]
+            elif r < 0.75:
+                e = [3, s]
+            elif r < 0.83:
+                e = [4, s]
+            elif r < 0.92:
+                e = [5, s, rng.random() < 0.8]
+            else:
+                e = [6, s, rng.random() < 0.8]
+            if e[0] != 2:
+                last = e
+            ev.append(e)
+        cases.append((users, rng.randrange(len(users)), ev))
+    ctx.count("relogin_random_histories", n_random)
+    ctx.count("relogin_random_login_events", n_login)
+    modelled = [i for i, (users, _, _) in enumerate(cases) if all(u[0] == "posix" for u in users)]
+    out = ctx.model([(50, sess_model_arg(*cases[i])) for i in modelled])
+    spec = ctx.model([(51, sess_model_arg(*cases[i])) for i in modelled[:: 9]])
+    by_idx = dict(zip(modelled, out))
+    for i, (users, first, ev) in enumerate(cases):
+        check_session(ctx, users, first, ev, by_idx.get(i), "relogin")
+    # the independent bookkeeping of the model (fn 51) realised in Python must give the model's paths (fn 50)
+    for i, so in zip(modelled[:: 9], spec):
+        users, first, ev = cases[i]
+        mo = by_idx[i]
+        if so[0] != 0 or mo[0] != 0:
+            continue
+        want = []
+        for cur, labs in so[1]:
+            ps = []
+            for owner, names, par in labs:
+                bp = pathlib.PurePosixPath(users[owner][1])
+                p = bp.joinpath(*sx.txts(names)) if names else bp
+                ps.append(str(p.parent if par else p))
+            want.append([str(pathlib.PurePosixPath(users[cur][1])), ps])
+        got = [[sx.txt(b[1]), [sx.txt(p[1]) for p in ps]] for b, ps in mo[1][0]]
+        if want != got:
+            ctx.disagree("relogin-spec", [users, first, ev], got, want)
+    xcheck.extend((50, sess_model_arg(*cases[i]), by_idx[i]) for i in modelled[:: max(1, len(modelled) // 8)][:8])
+    ctx.sample({"stream": "relogin", "users": users3, "events": [[3, "/f"], [0, 1], [3, "/f"]]})
+    loop.close()
+
+
+# ---------------------------------------------------------------- wire level: recording backend on simnet
+WIRE_TREE = {
+    "alice": {"f": b"ALICE-f", "d": {"g": b"alice-d-g", "f": b"alice-d-f"}, "e": {}},
+    "bob": {"f": b"BOB-f", "d": {"g": b"bob-d-g", "e": {}}, "x": {"f": b"bob-x-f"}},
+    "f": b"ROOT-f",
+    "d": {"g": b"root-d-g"},
+}
+# login, password, base_path, home_path
+WIRE_USERS = [("alice", "a", "/alice", "/"), ("bob", "b", "/bob", "/d"), ("carol", "c", "alice/d", "/"), ("root", "r", "/", "/alice"), ("dave", "d", "/bob", "/")]
+WIRE_ARGS = ["f", "/f", "d", "/d", "d/g", "g", "../f", "..", "/", "", ".", "//f", "/d/../f", "x/f", "e", "new", "/d/new", "../../f", "/alice/f"]
+PATH_VERBS = ["CWD", "MLST", "MKD", "RMD", "DELE", "RNFR", "RNTO", "LIST", "MLSD", "RETR", "STOR", "APPE"]
+DATA_VERBS = ("LIST", "MLSD", "RETR", "STOR", "APPE")
+
+
+def rec_factory(log):
+    class Rec(aioftp.MemoryPathIO):
+        pass
+
+    def wrap(name):
+        orig = getattr(aioftp.MemoryPathIO, name)
+
+        async def f(self, *a, **k):
+            log.append((name, [str(x) for x in a if isinstance(x, pathlib.PurePath)]))
+            return await orig(self, *a, **k)
+
+        return f
+
+    for n in ("exists", "is_dir", "is_file", "mkdir", "rmdir", "unlink", "stat", "_open", "rename"):
+        setattr(Rec, n, wrap(n))
+    orig_list = aioftp.MemoryPathIO.list
+
+    def lst(self, path):
+        log.append(("list", [str(path)]))
+        return orig_list(self, path)
+
+    Rec.list = lst
+    return Rec
+
+
+def run_wire(events):
+    """events: [(verb, arg, payload)] on ONE control connection of the real server (simnet, MemoryPathIO
+    wrapped by a recorder) -> per event dict(codes, lines, calls, bytes)"""
+    log, obs = [], []
+
+    async def main(net):
+        users = [aioftp.User(l, p, base_path=b, home_path=h) for l, p, b, h in WIRE_USERS]
+        server = aioftp.Server(users, path_io_factory=aioftp.MemoryPathIO, wait_future_timeout=1)
+        server.path_io_factory.state = ftpsim.mem_state(WIRE_TREE)
+        server.path_io_factory.factory = rec_factory(log)
+        await server.start("127.0.0.1", ftpsim.PORT)
+        s = ftpsim.Session(net, server)
+        await s.start()
+        for verb, arg, payload in events:
+            before = len(log)
+            try:
+                r = await s.event(verb, arg, payload)
+            except Exception as e:  # noqa: BLE001 - observation
+                r = {"codes": [], "lines": [], "error": repr(e), "ended": True}
+            r["calls"] = log[before:]
+            obs.append(r)
+            if r.get("ended"):
+                break
+        tree = ftpsim.final_tree(server, "memory")
+        await server.close()
+        return tree
+
+    tree = simnet.run(main)
+    return obs, tree
+
+
+def wire_oracle(events, obs):
+    """the property on the recorded backend calls, stated without the model: every path handed to the backend
+    is base_path(current user) + normalize(cwd, arg) (or its parent for the STOR/APPE reachability probe, or a
+    child for LIST/MLSD entries, or the recorded RNFR target as the rename source).  -> (problems, model events)"""
+    by_login = {u[0]: u for u in WIRE_USERS}
+    cur, logged, cwd = None, False, "/"
+    rn = None  # (owner login, real path str)
+    problems, mev = [], []
+    for k, ((verb, arg, _), ob) in enumerate(zip(events, obs)):
+        codes, calls = ob["codes"], ob["calls"]
+        v = verb.upper()
+        if "error" in ob:
+            problems.append((k, "wire-driver-error", ob["error"]))
+            break
+        if v == "USER":
+            logged = False
+            if "331" in codes:
+                cur = by_login.get(arg)
+                cwd = cur[3] if cur else "/"
+                mev.append([0, [u[0] for u in WIRE_USERS].index(arg)])
+            else:
+                cur = None
+        elif v == "PASS":
+            if "230" in codes:
+                logged = True
+        if v in ("USER", "PASS", "PWD", "PASV", "TYPE", ftpsim.DATACONN) or not logged or cur is None:
+            if calls:
+                problems.append((k, "wire-backend-touched", f"{verb} {arg!r} reached the backend: {calls[:3]}"))
+            if v == "PWD" and logged and codes == ["257"]:
+                shown = ob["lines"][-1][4:].strip().strip('"')
+                if shown != cwd:
+                    problems.append((k, "wire-pwd", f"PWD reports {shown!r}, the working directory is {cwd!r}"))
+            continue
+        base = pathlib.PurePosixPath(cur[2])
+        if v == "CDUP":
+            norm = py_normalize(cwd, "")[:-1]
+        else:
+            norm = py_normalize(cwd, arg)
+        target = base.joinpath(*norm) if norm else base
+        T = str(target)
+        for name, args in calls:
+            for j, p in enumerate(args):
+                if p == T:
+                    continue
+                if v in ("STOR", "APPE") and name == "is_dir" and p == str(target.parent):
+                    if not norm and target.parent != target:
+                        problems.append((k, "wire-stor-root-parent-probe", f"{verb} {arg!r} as {cur[0]} asks is_dir({p!r}): outside base {cur[2]!r}"))
+                    continue
+                if v in ("LIST", "MLSD") and str(pathlib.PurePosixPath(p).parent) == T and name != "list":
+                    continue
+                if v == "RNTO" and name == "rename" and j == 0 and rn is not None and p == rn[1]:
+                    if rn[0] != cur[0]:
+                        problems.append((k, "wire-relogin-rnfr-carried", f"RNTO {arg!r} as {cur[0]} renames {p!r}, the RNFR target of {rn[0]}"))
+                    continue
+                problems.append((k, "wire-foreign-path", f"{verb} {arg!r} as {cur[0]} (base {cur[2]!r}, cwd {cwd!r}): backend call {name}({p!r}); the request addresses {T!r}"))
+        renamed = [a for n, a in calls if n == "rename"]
+        if v == "CWD":
+            mev.append([1, arg, codes == ["250"]])
+            if codes == ["250"]:
+                cwd = "/" + "/".join(norm)
+        elif v == "CDUP":
+            mev.append([2, codes == ["250"]])
+            if codes == ["250"]:
+                cwd = "/" + "/".join(norm)
+        elif v in ("STOR", "APPE"):
+            mev.append([4, arg])
+        elif v == "RNFR":
+            mev.append([5, arg, codes == ["350"]])
+            if codes == ["350"]:
+                rn = (cur[0], T)
+        elif v == "RNTO":
+            reached = bool(renamed) or codes == ["250"]
+            mev.append([6, arg, reached])
+            if reached:
+                rn = None
+        else:
+            mev.append([3, arg])
+        ob["model_index"] = len(mev) - 1
+    return problems, mev
+
+
+def gen_wire_history(rng):
+    ev = []
+    logins = [u[0] for u in WIRE_USERS]
+    pw = {u[0]: u[1] for u in WIRE_USERS}
+
+    def login(name):
+        ev.append(("USER", name, None))
+        if rng.random() < 0.08:
+            ev.append(("MLST", rng.choice(WIRE_ARGS), None))  # between USER and PASS: 503
+        ev.append(("PASS", pw[name] if rng.random() < 0.93 else "wrong", None))
+
+    login(rng.choice(logins))
+    last = None
+    for _ in range(rng.randint(4, 14)):
+        r = rng.random()
+        if r < 0.2:
+            login(rng.choice(logins))
+            if last is not None and rng.random() < 0.6:
+                ev.extend(last)  # the same request again under the new login
+            continue
+        if r < 0.27:
+            verb = rng.choice(["PWD", "CDUP", "TYPE"])
+            ev.append((verb, "I" if verb == "TYPE" else "", None))
+            continue
+        verb = rng.choice(PATH_VERBS)
+        arg = rng.choice(WIRE_ARGS)
+        item = []
+        if verb in DATA_VERBS:
+            if rng.random() < 0.9:
+                item.append(("PASV", "", None))
+                if rng.random() < 0.9:
+                    item.append((ftpsim.DATACONN, "", None))
+            item.append((verb, arg, b"up-" + arg.encode() if verb in ("STOR", "APPE") else None))
+        else:
+            item.append((verb, arg, None))
+        ev.extend(item)
+        if verb != "RNTO":
+            last = item
+    return ev
+
+
+def check_wire(ctx, events, stream="wire"):
+    ctx.case((stream, repr(events)))
+    ctx.traces_impl += 1
+    try:
+        obs, tree = run_wire(events)
+    except Exception as e:  # noqa: BLE001 - the (mutated) implementation broke the driver: observation
+        ctx.violation(f"wire session could not be driven: {e!r}", {"key": "wire-driver-error", "wire": True, "events": [[v, a, p.decode() if p else None] for v, a, p in events]})
+        return None
+    problems, mev = wire_oracle(events, obs)
+    hist = [[v, a, p.decode() if p else None] for v, a, p in events]
+    for k, key, detail in problems[:3]:
+        report(ctx, f"wire session, step {k}: {detail}", {"key": key, "wire": True, "events": hist, "step": k})
+    return obs, mev
+
+
+def stream_wire(ctx, xcheck):
+    rng = ctx.rng
+    n = 1200 if ctx.tier == "thorough" else 120
+    hs = [gen_wire_history(rng) for _ in range(n)]
+    # fixed shapes: the same request before and after a re-login, for every pair of users and several verbs
+    for a in WIRE_USERS:
+        for b in WIRE_USERS:
+            if a is b:
+                continue
+            for verb, arg in (("MLST", "/f"), ("DELE", "d/g"), ("MKD", "new")):
+                if ctx.tier != "thorough" and rng.random() < 0.6:
+                    continue
+                hs.append([("USER", a[0], None), ("PASS", a[1], None), ("MLST" if verb != "MLST" else verb, arg, None),
+                           ("USER", b[0], None), ("PASS", b[1], None), (verb, arg, None), ("PWD", "", None)])
+    n_ev = n_login = 0
+    results = []
+    for h in hs:
+        r = check_wire(ctx, h)
+        n_ev += len(h)
+        n_login += sum(1 for v, _, _ in h if v == "USER")
+        if r is not None:
+            results.append((h, r))
+    # the model on the same histories: the paths it predicts must cover the recorded ones, exactly for rename / the STOR probe
+    ulist = [("posix", u[2], u[3]) for u in WIRE_USERS]
+    cases, keep = [], []
+    for h, (obs, mev) in results:
+        if mev and mev[0][0] == 0:
+            cases.append((50, sess_model_arg(ulist, mev[0][1], mev[1:])))
+            keep.append((h, obs, mev))
+    out = ctx.model(cases)
+    for (h, obs, mev), mo in zip(keep, out):
+        if mo[0] != 0:
+            ctx.disagree("wire-model", h, mo, "model refused")
+            continue
+        steps = mo[1][0]
+        for ob in obs:
+            mi = ob.get("model_index")
+            if mi is None or mi == 0 or mi - 1 >= len(steps):
+                continue
+            predicted = [sx.txt(p[1]) for p in steps[mi - 1][1]]
+            for name, args in ob["calls"]:
+                if name == "rename" and args != predicted[::-1]:
+                    ctx.disagree("wire-model-rename", h, predicted, args)
+                for p in args:
+                    if p not in predicted and str(pathlib.PurePosixPath(p).parent) not in predicted:
+                        ctx.disagree("wire-model", h, predicted, [name, args])
+    ctx.count("wire_sessions", len(hs))
+    ctx.count("wire_events", n_ev)
+    ctx.count("wire_login_events", n_login)
+    ctx.sample({"stream": "wire", "events": [[v, a] for v, a, _ in hs[0][:12]]})
+    xcheck.extend((50, a, mo) for (_, a), mo in list(zip(cases, out))[:4])
+
+
 # ---------------------------------------------------------------- known findings
 WITNESSES = [
     # (finding key, flavour, base, cwd, path)
@@ -439,6 +939,13 @@ def run_witness(flavour, base, cwd, s):
         impl.close()
 
 
+# wire-level witnesses of the session findings: key -> history on one control connection
+WIRE_WITNESSES = {
+    "wire-relogin-rnfr-carried": [("USER", "alice", None), ("PASS", "a", None), ("RNFR", "/f", None), ("USER", "dave", None), ("PASS", "d", None), ("RNTO", "/taken", None)],
+    "wire-stor-root-parent-probe": [("USER", "alice", None), ("PASS", "a", None), ("PASV", "", None), (ftpsim.DATACONN, "", None), ("STOR", "/", b"x")],
+}
+
+
 def known(ctx):
     for f in ctx.kf:
         for key, flavour, base, cwd, s in WITNESSES:
@@ -446,6 +953,17 @@ def known(ctx):
                 bad, res = run_witness(flavour, base, cwd, s)
                 if bad is not None:
                     ctx.known_reproduced(f["id"], f"{key}: get_paths({base!r}, cwd={cwd!r}, {s!r}) -> real {str(res[0])!r}, virtual {str(res[1])!r}: {bad[1]}")
+        for key, events in WIRE_WITNESSES.items():
+            if key in f.get("keys", []):
+                try:
+                    obs, _ = run_wire(events)
+                    problems, _ = wire_oracle(events, obs)
+                except Exception as e:  # noqa: BLE001
+                    ctx.notes.append(f"witness of {key} could not be driven: {e!r}")
+                    continue
+                hit = [d for _, k, d in problems if k == key]
+                if hit:
+                    ctx.known_reproduced(f["id"], f"{key}: {hit[0]}")
 
 
 # ---------------------------------------------------------------- entry points
@@ -457,18 +975,41 @@ def correspondence(ctx, widen=False):
         "string of <= 3 segments (4 thorough) over the 13-segment alphabet of the property x 4 prefixes x 7 working directories x "
         "7 POSIX + 7 Windows bases on the real Server.get_paths (quick: the 3-segment layer is spread round-robin over the "
         "base/cwd pairs), plus random paths of 3-7 segments; (normalize) the Coq specification against an independent Python "
-        "fold; (histories) random CWD/CDUP histories with refused steps. The oracle (real = base + virtual components, no '..' "
-        "below base, virtual = normalize) runs on every real output. A case is non-trivial when its input is distinct."
+        "fold; (histories) random CWD/CDUP histories with refused steps; (relogin) ONE Connection object reused across "
+        "get_paths calls while connection.user / current_directory change: every history of <= 3 events (4 thorough) over a "
+        "13-event alphabet {login as one of 3 users (2 bases, 2 homes), path command with 3 spellings, CWD, CDUP, RNFR, RNTO, "
+        "STOR, STOR /, refused CWD} plus random histories of 2-10 events over 8 POSIX and 3 Windows users, each path command "
+        "resolved 3 times as the decorators and the body do, compared with Model/PathsSess.v and with a fresh Connection; "
+        "(wire) random sessions with re-logins on ONE control connection of the real server on simnet with a recording "
+        "backend (5 users: different, nested, relative and equal base paths, different homes), every path handed to the "
+        "backend compared with base_path(current user) + normalize(cwd, arg) and with the model. The oracle (real = base + "
+        "virtual components, no '..' below base, virtual = normalize) runs on every real output. A case is non-trivial when "
+        "its input is distinct."
     )
     xcheck = []
-    stream_pathlib(ctx, xcheck)
-    stream_winpath(ctx, xcheck)
-    stream_normalize(ctx, xcheck)
-    if widen:
-        stream_get_paths(ctx, xcheck, k=4, n_random=40000)
-    else:
-        stream_get_paths(ctx, xcheck)
-    stream_histories(ctx, xcheck)
+    only = [x for x in os.environ.get("C02_STREAMS", "").split(",") if x]  # development aid: run a subset of the streams
+
+    def want(name):
+        return not only or name in only
+
+    if want("pathlib"):
+        stream_pathlib(ctx, xcheck)
+    if want("winpath"):
+        stream_winpath(ctx, xcheck)
+    if want("normalize"):
+        stream_normalize(ctx, xcheck)
+    if want("get_paths"):
+        if widen:
+            stream_get_paths(ctx, xcheck, k=4, n_random=40000)
+        else:
+            stream_get_paths(ctx, xcheck)
+    if want("histories"):
+        stream_histories(ctx, xcheck)
+    if not widen:
+        if want("wire"):
+            stream_wire(ctx, xcheck)
+        if want("relogin"):
+            stream_relogin(ctx, xcheck)
     ok, out = core.vm_crosscheck(EXTRACT, xcheck[:100])
     ctx.extra["vm_compute_crosscheck"] = {"cases": len(xcheck[:100]), "agree": ok}
     if not ok:
@@ -488,6 +1029,24 @@ def search(ctx):
 
 def replay(ctx, data):
     r = data.get("replay", {})
+    if r.get("session"):
+        asyncio.set_event_loop(asyncio.new_event_loop())
+        users = [tuple(u) for u in r["users"]]
+        per_event, problems, cwd = run_session_impl(users, r["first"], r["events"])
+        for (cur, paths), ev in zip(per_event, r["events"]):
+            print("event", ev, "as user", cur, "->", [str(p) for p in paths])
+        for k, key, detail in problems:
+            print("oracle: step", k, key, detail)
+        return not problems
+    if r.get("wire"):
+        events = [(v, a, p.encode() if p is not None else None) for v, a, p in r["events"]]
+        obs, tree = run_wire(events)
+        problems, _ = wire_oracle(events, obs)
+        for (v, a, _), ob in zip(events, obs):
+            print(v, a, ob["codes"], ob["calls"])
+        for k, key, detail in problems:
+            print("oracle: step", k, key, detail)
+        return not problems
     if "path" in r:
         bad, res = run_witness(r["flavour"], r["base"], r["cwd"], r["path"])
         print("get_paths ->", None if res is None else (str(res[0]), str(res[1])), "oracle:", bad)
